@@ -10,7 +10,7 @@
    Builder.Instructions say; ref_verdict below writes it down once, independently of the IR. *)
 From Coq Require Import List NArith ZArith Bool.
 From Verif.Common Require Import Packet PolicyRef.
-From Verif.C11 Require Import Bpf Model.
+From Verif.C11 Require Import Bpf Model Emit.
 Import ListNotations.
 Open Scope N_scope.
 
@@ -165,7 +165,8 @@ Record case := {
   c_rules : brules;
   c_sets : sets_table;
   c_result : compile_result;
-  c_probes : list pstate
+  c_probes : list pstate;
+  c_plain : bool                           (* built without flow logs, policy debug, trampoline stride and splitting *)
 }.
 
 (* typed constants for the case terms printed by the driver (an untyped [] / None is slow to elaborate) *)
@@ -242,6 +243,28 @@ Definition bits_of (c : case) : N := if c_v6 c then 128 else 32.
 
 (* check_case c = (the IR model predicts what the real instruction stream does on every probe,
                    the real instruction stream reaches the reference verdict on every probe / compiled at all) *)
+(* Inside the fragment Emit.v models (no IP-set lookup, no CIDR compare, plain build) the real program must be,
+   word for word, what the Gallina emitters + assembler produce. *)
+Definition emit_cfg_of (c : case) : emit_cfg :=
+  {| ec_state_fd := FD_STATE; ec_static_fd := FD_STATIC; ec_usejmps := c_usejmps c; ec_allow := c_allow c;
+     ec_deny := c_deny c; ec_xdp := br_xdp (c_rules c) |}.
+Fixpoint words_eqb (a b : list N) : bool :=
+  match a, b with
+  | [], [] => true
+  | x :: a', y :: b' => N.eqb x y && words_eqb a' b'
+  | _, _ => false
+  end.
+Definition words_as_emitted (c : case) (words : list (list N)) : bool :=
+  if c_plain c then
+    match lower_program (c_variant c) (ver_of c) (emit_cfg_of c) (c_rules c), words with
+    | Some ws, [w] => words_eqb ws w
+    | Some _, _ => false
+    | None, _ => true
+    end
+  else true.
+Definition in_emit_fragment (c : case) : bool :=
+  c_plain c && match lower_program (c_variant c) (ver_of c) (emit_cfg_of c) (c_rules c) with Some _ => true | None => false end.
+
 Definition check_case (c : case) : bool * bool :=
   let v := ver_of c in
   let valid := valid_rules (c_rules c) in
@@ -261,7 +284,7 @@ Definition check_case (c : case) : bool * bool :=
                             let o := observe c (run_real c progs e entry ps) in
                             (obs_eqb o (model_verdict (c_variant c) v (c_rules c) bs ps),
                              negb valid || obs_verdict_is o (ref_verdict s v (c_rules c) ps))) (c_probes c) in
-          (forallb fst per, forallb snd per)
+          (forallb fst per && words_as_emitted c words, forallb snd per)
       end
   end.
 
